@@ -971,6 +971,160 @@ def _drop_unreferenced(tree, helpers: dict):
     return tree
 
 
+class _MatchToIf(ast.NodeTransformer):
+    """`match` statements whose patterns are value / literal / class-without-positional-subpattern / wildcard patterns are
+    rewritten as the if/elif chain the language defines them to be (one canonical form for both spellings)."""
+
+    def __init__(self):
+        self.n = 0
+
+    def _pat(self, p, subj):
+        """-> (condition expr | None for always, [binding stmts]) or raises ValueError when not convertible"""
+        if isinstance(p, ast.MatchValue):
+            return ast.Compare(left=copy.deepcopy(subj), ops=[ast.Eq()], comparators=[p.value]), []
+        if isinstance(p, ast.MatchSingleton):
+            return ast.Compare(left=copy.deepcopy(subj), ops=[ast.Is()], comparators=[ast.Constant(value=p.value)]), []
+        if isinstance(p, ast.MatchAs):
+            if p.pattern is None:
+                if p.name is None:
+                    return None, []
+                return None, [ast.Assign(targets=[ast.Name(id=p.name, ctx=ast.Store())], value=copy.deepcopy(subj))]
+            raise ValueError
+        if isinstance(p, ast.MatchOr):
+            conds = []
+            for q in p.patterns:
+                c, b = self._pat(q, subj)
+                if c is None or b:
+                    raise ValueError
+                conds.append(c)
+            return ast.BoolOp(op=ast.Or(), values=conds), []
+        if isinstance(p, ast.MatchClass):
+            if p.patterns:
+                raise ValueError
+            cond = ast.Call(func=ast.Name(id="isinstance", ctx=ast.Load()), args=[copy.deepcopy(subj), p.cls], keywords=[])
+            conds, binds = [cond], []
+            for attr, q in zip(p.kwd_attrs, p.kwd_patterns):
+                sub = ast.Attribute(value=copy.deepcopy(subj), attr=attr, ctx=ast.Load())
+                c, b = self._pat(q, sub)
+                if c is not None:
+                    conds.append(c)
+                binds.extend(b)
+            return (conds[0] if len(conds) == 1 else ast.BoolOp(op=ast.And(), values=conds)), binds
+        raise ValueError
+
+    def visit_Match(self, node):
+        self.generic_visit(node)
+        subj = node.subject
+        pre = []
+        try:
+            if not _is_simple_expr(subj):
+                self.n += 1
+                nm = f"_match_subject{self.n}"
+                pre.append(ast.Assign(targets=[ast.Name(id=nm, ctx=ast.Store())], value=subj))
+                subj = ast.Name(id=nm, ctx=ast.Load())
+            arms = []
+            for c in node.cases:
+                cond, binds = self._pat(c.pattern, subj)
+                if c.guard is not None:
+                    if binds:
+                        raise ValueError
+                    cond = c.guard if cond is None else ast.BoolOp(op=ast.And(), values=[cond, c.guard])
+                arms.append((cond, binds, c))
+        except ValueError:
+            return node
+        chain = None
+        # build from the last arm backwards
+        for cond, binds, c in reversed(arms):
+            body = binds + c.body
+            if cond is None:
+                chain = body  # wildcard: everything after it is unreachable
+                continue
+            new_if = ast.If(test=cond, body=body, orelse=(chain if isinstance(chain, list) else ([chain] if chain is not None else [])))
+            ast.copy_location(new_if, c.pattern)
+            ast.copy_location(cond, c.pattern)
+            chain = new_if
+        if chain is None:
+            return node
+        out = pre + (chain if isinstance(chain, list) else [chain])
+        for st in out:
+            for x in ast.walk(st):
+                if not hasattr(x, "lineno"):
+                    ast.copy_location(x, node)
+            ast.fix_missing_locations(st)
+        return out
+
+
+class _AliasFold(ast.NodeTransformer):
+    """`x = self.a.b` (single assignment of local x, the chain is not stored to in the function): later loads of x read the chain.
+    Analysis vocabulary only: rules name state by its attribute path, a local alias is transparent to them."""
+
+    def visit_FunctionDef(self, fn):
+        self.generic_visit(fn)
+        stores = {}
+        for x in _walk_fn(fn):
+            if isinstance(x, ast.Name) and isinstance(x.ctx, (ast.Store, ast.Del)):
+                stores[x.id] = stores.get(x.id, 0) + 1
+        params = {a.arg for a in fn.args.posonlyargs + fn.args.args + fn.args.kwonlyargs}
+        stored_chains = set()
+        for x in _walk_fn(fn):
+            if isinstance(x, ast.Attribute) and isinstance(x.ctx, (ast.Store, ast.Del)):
+                d = _dotted(x)
+                if d:
+                    stored_chains.add(d)
+        cands = {}
+        for blk_owner in _walk_fn(fn):
+            for field in ("body", "orelse", "finalbody"):
+                blk = getattr(blk_owner, field, None)
+                if not isinstance(blk, list):
+                    continue
+                for st in blk:
+                    tgt = val = None
+                    if isinstance(st, ast.Assign) and len(st.targets) == 1:
+                        tgt, val = st.targets[0], st.value
+                    elif isinstance(st, ast.AnnAssign) and st.value is not None:
+                        tgt, val = st.target, st.value
+                    if not (isinstance(tgt, ast.Name) and isinstance(val, ast.Attribute)):
+                        continue
+                    d = _dotted(val)
+                    if not d or d.split(".")[0] not in ("self", "cls") or stores.get(tgt.id) != 1 or tgt.id in params:
+                        continue
+                    if any(d == c or d.startswith(c + ".") or c.startswith(d + ".") for c in stored_chains):
+                        continue
+                    cands[tgt.id] = (st, val, blk)
+        if not cands:
+            return fn
+        # nested functions that capture the alias keep it
+        for x in ast.walk(fn):
+            if x is not fn and isinstance(x, (ast.FunctionDef, ast.AsyncFunctionDef, ast.Lambda)):
+                for y in ast.walk(x):
+                    if isinstance(y, ast.Name) and y.id in cands:
+                        cands.pop(y.id, None)
+        for name, (st, val, blk) in list(cands.items()):
+            uses = [x for x in _walk_fn(fn) if isinstance(x, ast.Name) and x.id == name and isinstance(x.ctx, ast.Load)]
+            if any((u.lineno, u.col_offset) <= (st.lineno, st.col_offset) for u in uses):
+                cands.pop(name)
+        if not cands:
+            return fn
+
+        class S(ast.NodeTransformer):
+            def visit_Name(s2, node):
+                if isinstance(node.ctx, ast.Load) and node.id in cands:
+                    new = copy.deepcopy(cands[node.id][1])
+                    for y in ast.walk(new):
+                        ast.copy_location(y, node)
+                    return new
+                return node
+
+        for name, (st, val, blk) in cands.items():
+            blk.remove(st)
+            if not blk:
+                blk.append(ast.copy_location(ast.Pass(), st))
+        fn = S().visit(fn)
+        return fn
+
+    visit_AsyncFunctionDef = visit_FunctionDef
+
+
 # ---------------------------------------------------------------------------------------------- driver
 def canonicalise(tree: ast.Module, modname: str):
     """Returns (tree, notes). notes: list of strings describing what was rewritten."""
@@ -1011,6 +1165,8 @@ def canonicalise(tree: ast.Module, modname: str):
             for k in sorted(set(inl.done)):
                 notes.append(f"inlined new helper {k}")
             tree = _drop_unreferenced(tree, {k: v[0] for k, v in helpers.items() if k in set(inl.done)})
+    tree = _MatchToIf().visit(tree)
+    tree = _AliasFold().visit(tree)
     tree = _Normalise().visit(tree)
     ast.fix_missing_locations(tree)
     return tree, notes
